@@ -23,6 +23,7 @@ MIN = {'quick': {'distinct': 300,
                            'grammaranalysis.fan_out': 3000},
                  'strata': {'re-extraction after in-place transformation': 300,
                             'rule count>1': 300, 'fan-out>=3': 100,
+                            'fan-out>=10': 50,
                             'repeated sibling labels': 300}},
        'thorough': {'distinct': 20000,
                     'hooks': {'grammar.extract': 150000}}}
@@ -106,6 +107,8 @@ def post_extract(old, result, exc, args, kw):
                 break
         fo = len(lin)
         Cur.ctx.stratum('fan-out>=3' if fo >= 3 else 'fan-out=%d' % fo)
+        if fo >= 10:
+            Cur.ctx.stratum('fan-out>=10')
         labs = [k.label for k in n.kids()]
         if len(set(labs)) < len(labs):
             Cur.ctx.stratum('repeated sibling labels')
@@ -142,6 +145,10 @@ def make_bank(rng, quick):
             t = copy.deepcopy(rng.choice(bank))
             t['sid'] = j + 1
             bank.append(t)
+            continue
+        if rng.random() < 0.02:
+            bank.append(gen.comb_tree(rng, rng.randint(10, 12), pools,
+                                      sid=j + 1))
             continue
         n = rng.choice([1, 2, 3, 4, 6, 9]) if rng.random() < 0.6 \
             else rng.randint(1, 16 if quick else 40)
